@@ -40,28 +40,37 @@ struct Shared {
     /// `Some(tid)`: that worker holds the baton; `None`: the controller does.
     current: Option<usize>,
     status: Vec<Status>,
+    /// Incremented by `install`: workers of an earlier case that never finished
+    /// (abandoned by `finish_all`) stay parked forever instead of taking the
+    /// baton of a new worker with the same id.
+    epoch: u64,
 }
 
 static STATE: Mutex<Shared> = Mutex::new(Shared {
     current: None,
     status: Vec::new(),
+    epoch: 0,
 });
 static CV: Condvar = Condvar::new();
 static HANDLES: Mutex<Vec<Option<JoinHandle<()>>>> = Mutex::new(Vec::new());
 
 thread_local! {
     static TID: Cell<Option<usize>> = const { Cell::new(None) };
+    static EPOCH: Cell<u64> = const { Cell::new(0) };
 }
 
 fn hook(kind: u32, addr: usize) {
     let Some(tid) = TID.with(|t| t.get()) else {
         return; // the controller (or an unrelated thread) is not scheduled
     };
+    let epoch = EPOCH.with(|e| e.get());
     let mut st = lockp(&STATE);
-    st.status[tid] = Status::Parked(kind, addr);
-    st.current = None;
-    CV.notify_all();
-    while st.current != Some(tid) {
+    if st.epoch == epoch {
+        st.status[tid] = Status::Parked(kind, addr);
+        st.current = None;
+        CV.notify_all();
+    }
+    while st.current != Some(tid) || st.epoch != epoch {
         st = match CV.wait(st) {
             Ok(g) => g,
             Err(e) => e.into_inner(),
@@ -85,6 +94,7 @@ pub fn install() {
         let mut st = lockp(&STATE);
         st.current = None;
         st.status.clear();
+        st.epoch += 1;
     }
     lockp(&HANDLES).clear();
     a10::verif::set_hook(Some(hook));
@@ -105,16 +115,17 @@ pub fn spawn<F>(f: F) -> usize
 where
     F: FnOnce() -> String + Send + 'static,
 {
-    let tid = {
+    let (tid, epoch) = {
         let mut st = lockp(&STATE);
         st.status.push(Status::New);
-        st.status.len() - 1
+        (st.status.len() - 1, st.epoch)
     };
     let handle = std::thread::spawn(move || {
         TID.with(|t| t.set(Some(tid)));
+        EPOCH.with(|e| e.set(epoch));
         {
             let mut st = lockp(&STATE);
-            while st.current != Some(tid) {
+            while st.current != Some(tid) || st.epoch != epoch {
                 st = match CV.wait(st) {
                     Ok(g) => g,
                     Err(e) => e.into_inner(),
@@ -126,9 +137,11 @@ where
             Err(_) => "panic".to_string(),
         };
         let mut st = lockp(&STATE);
-        st.status[tid] = Status::Done(r);
-        st.current = None;
-        CV.notify_all();
+        if st.epoch == epoch {
+            st.status[tid] = Status::Done(r);
+            st.current = None;
+            CV.notify_all();
+        }
     });
     lockp(&HANDLES).push(Some(handle));
     step(tid);
@@ -163,8 +176,11 @@ pub fn count() -> usize {
     lockp(&STATE).status.len()
 }
 
-/// Run every unfinished worker to completion (round robin; bounded).
-pub fn finish_all() {
+/// Run every unfinished worker to completion (round robin; bounded). Returns
+/// the ids of workers that still did not finish: they are abandoned (left
+/// parked for ever, their threads detached) so that the harness never hangs on
+/// an implementation that loops.
+pub fn finish_all() -> Vec<usize> {
     let n = count();
     for _ in 0..100_000 {
         let mut progressed = false;
@@ -178,11 +194,21 @@ pub fn finish_all() {
             break;
         }
     }
+    let stuck: Vec<usize> = (0..n).filter(|t| !matches!(status(*t), Some(Status::Done(_)))).collect();
     let mut hs = lockp(&HANDLES);
-    for h in hs.iter_mut() {
+    for (tid, h) in hs.iter_mut().enumerate() {
         if let Some(h) = h.take() {
-            let _ = h.join();
+            if stuck.contains(&tid) {
+                drop(h); // detach
+            } else {
+                let _ = h.join();
+            }
         }
     }
     hs.clear();
+    if !stuck.is_empty() {
+        // make sure the abandoned workers can never run again
+        lockp(&STATE).epoch += 1;
+    }
+    stuck
 }
